@@ -98,6 +98,8 @@ pub fn child(args: &[String]) {
             let mut buf = Buf::random(16, 2, &mut rng);
             e.fft(&mut buf.refmut(), 0, 8, 8, 8);
             step(judge("fft", best, &[vh::PRIM_FFT]), &mut log, &mut fail);
+            // ifft is specified only when the inputs beyond truncated_size are zero (C15): make them so
+            buf.zero_shards(8 + 5, 16);
             e.ifft(&mut buf.refmut(), 8, 8, 5, 16);
             step(judge("ifft", best, &[vh::PRIM_IFFT]), &mut log, &mut fail);
             e.mul(&mut buf.data[0..2], 12345);
@@ -169,6 +171,8 @@ pub fn child(args: &[String]) {
             let mut buf = Buf::random(16, 2, &mut rng);
             e.fft(&mut buf.refmut(), 0, 8, 8, 8);
             step(judge("aarch64 fft", best, &[vh::PRIM_FFT]), &mut log, &mut fail);
+            // ifft is specified only when the inputs beyond truncated_size are zero (C15): make them so
+            buf.zero_shards(8 + 5, 16);
             e.ifft(&mut buf.refmut(), 8, 8, 5, 16);
             step(judge("aarch64 ifft", best, &[vh::PRIM_IFFT]), &mut log, &mut fail);
             e.mul(&mut buf.data[0..2], 12345);
